@@ -294,3 +294,13 @@ Definition triple (r : rspec) : redir :=
 Definition item := (list tok * rspec)%type.
 Definition render (items : list item) (last : list tok) : list tok :=
   flat_map (fun it => fst it ++ render_r (snd it)) items ++ last.
+
+(* PROPOSED notes/C04-fix-5.patch: `cmd <file` written without a blank.  An untagged word that starts
+   with one `<` (not `<<`) and has more characters is split into `<` and the rest before the loop. *)
+Definition split_lt (t : tok) : list tok :=
+  match fst t, snd t with
+  | [], c :: (c2 :: r) =>
+      if N.eqb c 60 && negb (N.eqb c2 60) then [([], s_lt); ([], c2 :: r)] else [t]
+  | _, _ => [t]
+  end.
+Definition from_tokens_att (tokens : list tok) : result2 := from_tokens (flat_map split_lt tokens).
